@@ -52,11 +52,7 @@ def run(ctx):
     consts["Scripts"] = "{}"
     if r["trace_runs"]:
         ok, where, tres = ctx.validate_trace("BeneficiaryTrace", out, "trace", consts, invariants=INVS)
-        if not ok:
-            if tres["invariant"]:
-                ctx.violation(f"invariant {tres['invariant']} fails on a recorded history run", {"kind": "hist_trace", "trace": out, "at": where})
-            else:
-                raise ToolError(f"conformance drift: history trace not a behaviour of Beneficiary.tla: {where}")
+        ctx.trace_verdict(ok, where, tres, "BeneficiaryTrace", out, consts, INVS, "Beneficiary.tla")
         ctx.traces += r["trace_runs"]
         ctx.trace_events += r["trace_events"]
         if not ctx.violations:
@@ -72,5 +68,13 @@ def run(ctx):
         for workers in (1, 2):
             rr, out2, a2 = se.controlled(ctx, names, 40 if quick else 2000, workers=workers, tag=f"fees_w{workers}")
             se.report(ctx, rr, a2, "C07", also=("C01", "C02"))
+    # the two publication sites must agree: an attempt that read an estimate (multi-version memory OR history) leaves an
+    # ESTIMATE in the history, exactly as its writes are published with the estimate flag. Scheduler runs with the history
+    # hooks on, validated against Grevm.tla (HE_Record rule of GrevmTrace.tla)
+    hist_names = ["f_ben_reader", "rmw3", "dd3", "grow_shrink3"]
+    for workers in (2, 3):
+        rr, out3, a3 = se.controlled(ctx, hist_names, 40 if quick else 2000, workers=workers, groups=("SCHED", "HIST"), tag=f"hist_w{workers}")
+        se.report(ctx, rr, a3, "C07", also=("C01", "C02"))
+        se.validate(ctx, rr, out3, f"trace_hist_w{workers}", workers=workers)
     ctx.assumptions += ["history scripts of spec/beneficiary_scripts.json (3 writers, 1 reader); the decisive validation runs after the predecessors published their last incarnation (as finality requires)",
                         "balances near U256::MAX realise the model's saturation bound for the overflow-order script"]
